@@ -36,6 +36,20 @@ CHECKS = {
         "Trusted: Coq kernel; Reals axioms only for the GAE link; hand-written model of on_policy.py:185-217,340-449 tied by exact differential check; jr.split as key paths with tabulated draws; filter_scan/filter_cond/filter_vmap assumed to be scan/cond/map.",
         "DESIGN.md §5 C04",
     ),
+    "C05": (
+        "Coq proof (step contract for all env/policy records; scan = append of the transition log; position arithmetic; link to the ring invariant) + exact correspondence with a real DQN learner's buffers evaluated in Coq",
+        "Theorems for every environment, behaviour policy, state, buffer and key path: a step stores observation acted on, chosen action, reward and PRE-reset successor observation for the executed (clipped) action, done = terminal or truncated, timeout = truncated and not terminated, policy states before/after, and restarts env and policy state after done; a scan of n steps appends the log of what happened; warm-up stores exactly learning_starts; each collection adds num_steps to every environment's own buffer; the buffer after warm-up satisfies the C06 ring invariant over that log. "
+        "Tie: buffers after real reset() and after collections executed as iteration() does (scalar / vmapped) on finite MDPs with tabular stateful policies; key-free cases decide the property independently of key routing.",
+        "Trusted: Coq kernel (closed under the global context); model of off_policy.py tied by exact differential check; train() not exercised (it never writes the buffer); jr.split as key paths with tabulated draws.",
+        "DESIGN.md §5 C05",
+    ),
+    "C06": (
+        "Coq proof (ring-buffer invariant by induction over arbitrary insertion histories; sampler-interface soundness incl. env-major flattening) + exact correspondence with real ReplayBuffer.add/sample evaluated in Coq",
+        "Theorems for all capacities C>0, all histories, all field types: slot j mod C holds ALL fields of insertion j for each of the most recent min(n,C) insertions; every written slot is one of them; current_size = min(n,C); for any index vector the sampler interface allows (distinct, non-zero probability under the valid mask), over one or several per-environment buffers with different fill levels, every returned row is a stored intact transition and none repeats. "
+        "Tie: real add histories wrapping up to 5 times, stacked per-env buffers with mixed fill, sample() for all batch sizes <= stored.",
+        "Trusted: Coq kernel (closed under the global context); jr.choice(replace=False,p) interface (distinct indices of non-zero probability) assumed by the theorem and checked on every batch; uniformity not proved.",
+        "DESIGN.md §5 C06",
+    ),
 }
 
 NOT_YET = "check not built yet in this round (planned: see DESIGN.md §5)"
